@@ -121,6 +121,7 @@ type Sim struct {
 	Notes    []string
 	probeSeq int
 	Live     bool // real tickers and receiveRoutines (trace-recording mode)
+	LiveScale int // timeout scale in ms (propose = 6x, prevote/precommit = 3x, commit = 2x)
 }
 
 // New builds an N-validator system with the given powers; byz lists Byzantine validator indices (1-based).
@@ -129,9 +130,13 @@ func New(dir string, powers []int64, byz []int, maxRound int64) (*Sim, error) {
 }
 
 func newSim(dir string, powers []int64, byz []int, maxRound int64, live bool) (*Sim, error) {
+	return newSimScale(dir, powers, byz, maxRound, live, 0)
+}
+
+func newSimScale(dir string, powers []int64, byz []int, maxRound int64, live bool, scale int) (*Sim, error) {
 	crypto.NodeInit(crypto.CryptoTypeZhongAn)
 	glog.SetLog(zap.NewNop())
-	s := &Sim{Live: live, N: len(powers), Powers: powers, Byz: map[int]bool{}, Dir: dir, Nodes: map[int]*Node{}, MaxRound: maxRound,
+	s := &Sim{Live: live, LiveScale: scale, N: len(powers), Powers: powers, Byz: map[int]bool{}, Dir: dir, Nodes: map[int]*Node{}, MaxRound: maxRound,
 		byHash: map[string]*Value{}, byParts: map[string]*Value{}, bySym: map[string]*Value{},
 		Ledger: map[string]pbft.ConsensusMessage{}, PartSize: 1 << 20}
 	for _, b := range byz {
@@ -199,13 +204,17 @@ func (s *Sim) boot(n *Node, first bool) error {
 	conf.Set("timeout_commit", 1000)
 	conf.Set("skip_timeout_commit", false)
 	if s.Live {
-		conf.Set("timeout_propose", 120)
-		conf.Set("timeout_propose_delta", 40)
-		conf.Set("timeout_prevote", 60)
-		conf.Set("timeout_prevote_delta", 20)
-		conf.Set("timeout_precommit", 60)
-		conf.Set("timeout_precommit_delta", 20)
-		conf.Set("timeout_commit", 40)
+		k := s.LiveScale
+		if k <= 0 {
+			k = 20
+		}
+		conf.Set("timeout_propose", 6*k)
+		conf.Set("timeout_propose_delta", 2*k)
+		conf.Set("timeout_prevote", 3*k)
+		conf.Set("timeout_prevote_delta", k)
+		conf.Set("timeout_precommit", 3*k)
+		conf.Set("timeout_precommit_delta", k)
+		conf.Set("timeout_commit", 2*k)
 	}
 	conf.Set("block_size", 100)
 	conf.Set("block_part_size", s.PartSize)
